@@ -260,21 +260,48 @@ def unroll_case(ctx, idx):
            for i in range(nt)]
     ys = [h.to_yastn(cfg) for h in hts]
     igs = [[labels[(i, j)] for j in range(ranks[i])] for i in range(nt)]
-    expected = np.einsum(",".join("".join(g) for g in igs) + "->" + "".join(out_labels), *[h.dense() for h in hts])
-    out_legs = [legs[s] for s in opens]
+    # optionally fuse two open legs of one tensor (hard or meta) into one output label: its history must survive unrolling
+    out_unf = list(out_labels)
+    fused_info = None
+    cands = [i for i in range(nt) if sum(1 for g in igs[i] if g in out_labels) >= 2]
+    if cands and rng.random() < 0.45:
+        i = rng.choice(cands)
+        ja, jb = sorted(rng.sample([j for j, g in enumerate(igs[i]) if g in out_labels], 2))
+        la, lb = igs[i][ja], igs[i][jb]
+        mode = rng.choice(("hard", "meta"))
+        groups = tuple((ja, jb) if j == ja else j for j in range(ranks[i]) if j != jb)
+        ys[i] = ys[i].fuse_legs(axes=groups, mode=mode)
+        F = "F"
+        igs_y = [list(g) for g in igs]
+        igs_y[i] = [F if j == ja else igs[i][j] for j in range(ranks[i]) if j != jb]
+        out_y = [F if g == la else g for g in out_labels if g != lb]
+        out_unf = []
+        for g in out_labels:
+            if g == la:
+                out_unf += [la, lb]
+            elif g != lb:
+                out_unf.append(g)
+        fused_info = (out_y.index(F), mode)
+        ctx.count("unroll_networks_with_fused_output_leg:" + mode)
+    else:
+        igs_y, out_y = [list(g) for g in igs], list(out_labels)
+    expected = np.einsum(",".join("".join(g) for g in igs) + "->" + "".join(out_unf), *[h.dense() for h in hts])
+    lab2leg = {labels[s]: legs[s] for s in opens}
+    out_legs = [lab2leg[g] for g in out_unf]
     nexp = G.add(sym, [h.n for h in hts])
     scale = 1.0
     for h in hts:
         scale *= max(float(np.linalg.norm(h.dense().ravel())), 1e-300)
     tol = 1e-12 * 64 * scale + 1e-300
     args = []
-    for y, g in zip(ys, igs):
+    for y, g in zip(ys, igs_y):
         args += [y, list(g)]
-    args.append(list(out_labels))
+    args.append(list(out_y))
     contracted = sorted({l for g in igs for l in g} - set(out_labels))
+    out_labels = [g for g in out_y if g != "F"]      # labels that may be unrolled (a fused leg cannot be masked)
 
     def leg_of(label):
-        for y, g in zip(ys, igs):
+        for y, g in zip(ys, igs_y):
             if label in g:
                 return y.get_legs(g.index(label))
     specs = [("none", None)]
@@ -311,6 +338,15 @@ def unroll_case(ctx, idx):
             ctx.count("unroll_variants")
             ctx.count("unroll:" + name)
             bad = None
+            if fused_info is not None:
+                posF, fmode = fused_info
+                hist = r.get_legs(posF).history() if r.ndim == len(out_y) else "?"
+                if r.ndim != len(out_y) or hist != ("p(oo)" if fmode == "hard" else "m(oo)"):
+                    ctx.violation(f"unroll:result:fused-output-leg:{name}",
+                                  f"contract_with_unroll path {path} unroll {name}: result rank {r.ndim} (expected {len(out_y)}), history of the {fmode}-fused output leg {hist!r}",
+                                  {"igs": igs_y, "out": out_y, "path": path, "unroll": name})
+                    continue
+                r = r.unfuse_legs(axes=posF)
             if r.ndim != len(out_legs):
                 bad = f"rank {r.ndim}"
             elif tuple(r.n) != tuple(nexp):
